@@ -64,7 +64,29 @@ def generate(ctx):
     if fd["format"] in ("vcf", "vcfgt") and tape.boolean("prime", 1, 2):
         sc["prime"] = {"buffer": "bionumpy.io.vcf_buffers.VCFBuffer2" if fd["format"] == "vcf" else "bionumpy.io.vcf_buffers.VCFBuffer",
                        "lazy": tape.choice([False, True], "prime.lazy")}
+    if fd["format"] == "vcfinfo" and tape.boolean("prime.redeclared", 1, 2):
+        # another file with the same INFO ids but other Number / Type declarations is read first in this interpreter
+        sc["prime"] = {"redeclared": tape.choice(["all_string", "scalar_int", "list_float"], "prime.how"),
+                       "lazy": tape.choice([False, True], "prime.lazy")}
     return sc
+
+
+REDECLARE = {"all_string": ("1", "String"), "scalar_int": ("1", "Integer"), "list_float": (".", "Float")}
+
+
+def redeclared_file(f, how):
+    """the same INFO ids with other declarations; one record whose values fit every one of them"""
+    num, typ = REDECLARE[how]
+    lines = ["##fileformat=VCFv4.2"]
+    for k, (n0, t0) in T.INFO_KEYS.items():
+        if t0 == "Flag":
+            lines.append(f'##INFO=<ID={k},Number=0,Type=Flag,Description="{k.lower()}">')
+        else:
+            lines.append(f'##INFO=<ID={k},Number={num},Type={typ},Description="{k.lower()}">')
+    lines.append("#CHROM\tPOS\tID\tREF\tALT\tQUAL\tFILTER\tINFO")
+    info = ";".join(f"{k}=7" for k, (n0, t0) in T.INFO_KEYS.items() if t0 != "Flag")
+    lines.append(f"chr1\t5\tx\tA\tC\t.\t.\t{info}")
+    return ("\n".join(lines) + "\n").encode()
 
 
 def execute(ctx, sc):
@@ -94,7 +116,17 @@ def execute(ctx, sc):
             raise
 
     with simfs.Mount(fs), core.quiet():
-        if sc.get("prime"):
+        if sc.get("prime") and sc["prime"].get("redeclared"):
+            pr = sc["prime"]
+            b = core.bnp()
+            fs.put("/sim/prime.vcf", redeclared_file(f, pr["redeclared"]))
+
+            def prime_read2():
+                t = b.open("/sim/prime.vcf", lazy=pr["lazy"]).read()
+                return core.plain(t.info)
+            core.call(prime_read2)      # its own outcome is not judged here
+            ctx.probe("primed_by_redeclared_info_header")
+        elif sc.get("prime"):
             pr = sc["prime"]
             b = core.bnp()
 
